@@ -112,6 +112,8 @@ func (e *Exec) initGhosts(w *World, st *BState) {
 	errT := types.Universe.Lookup("error").Type()
 	st.ghost["cbErr"] = zeroValue(errT)
 	ghostTypes["cbErr"] = errT
+	st.ghost["$outAtMeta"] = intSV(intLit(0))
+	ghostTypes["$outAtMeta"] = types.Typ[types.Int]
 	st.ghost["runErr"] = zeroValue(errT)
 	ghostTypes["runErr"] = errT
 }
@@ -119,6 +121,9 @@ func (e *Exec) initGhosts(w *World, st *BState) {
 func usesStreams(fn *ssa.Function) bool {
 	for _, p := range fn.Params {
 		if namedIs(p.Type(), "octosql/execution", "ProduceFn") || namedIs(p.Type(), "octosql/execution", "MetaSendFn") {
+			return true
+		}
+		if sig, ok := p.Type().Underlying().(*types.Signature); ok && sig.Params().Len() == 1 && namedIs(sig.Params().At(0).Type(), "octosql/execution", "Record") {
 			return true
 		}
 	}
@@ -202,6 +207,7 @@ func resetRunGlobals() {
 	closureOf = map[SV]*ssa.MakeClosure{}
 	rangeOver = map[*ssa.Range]SV{}
 	streamCount = map[*ssa.Function]int{}
+	ascendCount = map[*ssa.Function]int{}
 	inlineStack = nil
 }
 
